@@ -333,6 +333,16 @@ def parseLine (mode : Bool) (p : Parsed) (line : String) : Parsed :=
       let c := clampCost (toInt32 v)
       { p with lim := { p.lim with cost := c }, out := if mode then s!"r ret {c}" :: p.out else p.out }
     | none => { p with bad := line :: p.bad }
+  | ["ev", "sizes", "rx", n] =>
+    -- one regexp match whose backtracking is exponential in n: charged against the budget (Sizes.regexCharge); the generator
+    -- only uses n far below and far above the threshold
+    match n.toNat? with
+    | some n =>
+      (match rxExpires n p.lim.cost with
+       | some true => { p with out := if mode then "r err es=2" :: p.out else p.out }
+       | some false => { p with out := if mode then "r ret 0" :: p.out else p.out }
+       | none => { p with bad := line :: p.bad })
+    | none => { p with bad := line :: p.bad }
   | ["mset", "set_handler_catches", v] => { p with lim := { p.lim with handlerCatches := v != "0" } }
   | ["shape", t] =>
     match parseShape t with
